@@ -187,3 +187,27 @@ CLAIMED["C12"] = (
  "Exactly-once completion of the datagram operations is decided under C01. Does not decide datagram boundaries, truncation or group/source filtering (kernel).",
  COMMON_NOTE,
  "DESIGN.md section 5 C12")
+
+# Clauses added after the seeded-defect rounds and the exploratory variants (DESIGN.md sections 8.1-8.3).
+EXTRA = {
+ "C01": " Also decides that only Slot.Set writes the handler table and that every operand a reactor handler reads (buffer, destination, mode) is armed together with the callback before any call that can park the operation.",
+ "C03": " Also decides that a posted handler is counted before the mutex that publishes it is released.",
+ "C04": " Also decides that the read interest is registered only after the timerfd was armed, that Cancel flags the repeating closure in every live state, that ScheduleOnce clears the flag only on paths that arm, and that the immediate callback runs only on a ready timer.",
+ "C05": " Also decides that the batch loop covers index 0..len-1 in steps of one.",
+ "C07": " Also decides that an incomplete payload unconditionally reserves at least the declared payload length.",
+ "C08": " Also decides that the transitions of the closing handshake exist (Active->ClosedByUs/ClosedByPeer, ClosedByUs->CloseAcked, ->Terminated).",
+ "C09": " Also decides that PrepareRead grants n only under n <= ReadLen() or after Commit(n-ReadLen()) under n-ReadLen() <= WriteLen(), that the memmove tail of Consume/Discard starts exactly the shifted amount above its destination, and exact amounts/bounds of Save, Reset, UnreadByte/ShrinkBy, Write*, Claim/ClaimFixed and the save-area validator (canonical comparison forms).",
+ "C11": " Also decides that the mapping routine is invoked once with each of the two addresses.",
+ "C12": " Also decides that reactor handlers leave the reactor's buffer/destination/callback alone, that the destination of a datagram write is computed from the argument on that call, and that a net.IP copied into a 4-byte kernel address goes through To4().",
+ "C13": " Also decides that the poller-interest removal and slot-table deregistration of every Close run behind its once-guard, and that the failed websocket handshake hands its connection to handshake(), which closes it after dial returned.",
+ "C14": " Also decides (R2) that an object built on a descriptor from open(2) has a deferral route that does not depend on the epoll registration - violated by file.scheduleRead/scheduleWrite for regular files (D28, known finding).",
+ "C15": " Also decides that handleFrame returns a check's error in every state and that the framing-violation errors are raised only by the checks handleFrame runs.",
+ "C16": " Also decides (R6) that a frame is encoded into the write buffer once - violated by the blocking Flush after a failed transport write (D29, known finding).",
+ "C17": " Also decides that the frame leaves the pending queue before its transport write starts.",
+ "C18": " Also decides that the terminator is searched in a window overlapping earlier reads, that the handshake buffer is cut to the received bytes before it is parsed, that the hasher is reset before the key is hashed, and (R7, over the call graph with callback-parameter propagation) that nothing executing inside the RawConn.Control callback closes a connection.",
+ "C19": " Also decides that Decode consumes nothing on a path that can still fail, that the length prefix is written and read in the same byte order, that ReadNext reads the transport only after ErrNeedMore, that an Encode error gates the transport write, and that every exit of ByteBuffer.WriteTo reporting written bytes has consumed them.",
+ "C20": " Also decides that the container search is a lower bound on the sequence number, that Pop matches it exactly, and that the popped slot is offset before the offsetter is reset.",
+}
+for _pid, _extra in EXTRA.items():
+    _t = CLAIMED[_pid]
+    CLAIMED[_pid] = (_t[0], _t[1] + _extra, _t[2], _t[3])
